@@ -23,7 +23,7 @@ func init() {
 		Real: "real: all of kvql from /repo's working tree; simulated: storage engine, caller",
 		NCases: func(tier string) int {
 			if tier == "thorough" {
-				return 5000000
+				return 15000000
 			}
 			return 120000
 		},
